@@ -33,7 +33,7 @@ type c16Witness struct {
 func init() {
 	core.Register(&core.Check{
 		ID:   "C16",
-		Rule: "trees: C02's single-site trees (every position x form x shape x spelling, relative and absolute roots), combined and PRNG-drawn multi-site trees, plus special trees: same file under three spellings, two files with the same tail path above and below the root's directory, same component name in two files, a root component that is a whole-file reference together with a reference into a sub-fragment of that file, top-level components of every kind that are external references, external files referring back into the root, cycles across files. For each: load with external references allowed, InternalizeRefs with a counting RefNameResolver wrapper, json.Marshal, reload with external references disallowed from a reader that serves nothing. Checked: no $ref outside #/components/, reload succeeds, Validate verdict unchanged, every planted site resolves to the object carrying the same marker as before (so distinct targets are not merged), request/response verdicts on a traffic sample unchanged, bounded resolver calls. Distinct = tree signature; non-trivial = at least one external reference. Special trees: one library with the same name in six collections; an external file referring back inside a root component.",
+		Rule: "trees: C02's single-site trees (every position x form x shape x spelling, relative and absolute roots), combined and PRNG-drawn multi-site trees, plus special trees: same file under three spellings, two files with the same tail path above and below the root's directory, same component name in two files, a root component that is a whole-file reference together with a reference into a sub-fragment of that file, top-level components of every kind that are external references, external files referring back into the root, cycles across files. For each: load with external references allowed, InternalizeRefs with a counting RefNameResolver wrapper, json.Marshal, reload with external references disallowed from a reader that serves nothing. Checked: no $ref outside #/components/, reload succeeds, Validate verdict unchanged, every planted site resolves to the object carrying the same marker as before (so distinct targets are not merged), request/response verdicts on a traffic sample unchanged, bounded resolver calls. Distinct = tree signature; non-trivial = at least one external reference. Special trees: one library with the same name in six collections; an external file referring back inside a root component. After every internalisation each component the root had before must designate the same object under its own name; one tree's root owns the names the external objects would get (8 collections).",
 		Assumptions: []string{
 			"markers identify objects; content equality beyond the marker is covered by the traffic and Validate verdict comparisons",
 			"termination: at most 1000 resolver calls per reference site, plus the CPU-time watchdog",
